@@ -904,9 +904,25 @@ def monitor_lookup_quota(run):
     return bad
 
 
+def monitor_attempt_bound(run):
+    """C09_attempt_bound / C01_limit_resolves on the implementation's own trace: the produce requests the driver counts as
+    consecutive attempts of ONE batch (a request sent from a produce-retry timer continues the count) never exceed
+    max_req_attempts - a batch whose attempt counter stepped past the limit (lookup failures used up the quota first)
+    must fail its sends, not retry for ever"""
+    mx = max(1, run.cfg["max"])
+    for i, st in enumerate(run.trace):
+        for o in st:
+            if o[0] == 1 and o[1] > mx:
+                return [{"theorem": "C01_limit_resolves", "step": i,
+                         "what": "produce request number %d for one batch although max_req_attempts=%d: the batch is retried beyond the "
+                                 "limit (its sends do not fire while the broker keeps failing)" % (o[1], mx)}]
+    return []
+
+
 def monitor(run):
     """returns a list of {"theorem":..., "what":..., "step":...}; empty = every C01 statement holds on this trace"""
     bad = monitor_lookup_quota(run)
+    bad += monitor_attempt_bound(run)
     cfg = run.cfg
     acks = cfg["acks"]
     events, trace = run.events, run.trace
